@@ -48,6 +48,10 @@ def run(prog, rep, tier):
     if not idmap:
         rep.missing('deku ids of DF')
         return
+    skip = [b['name'] for b in prog.bodies.values() if b['kind'] == 'fn' and b['item'] == 'from_reader_with_ctx' and b.get('impl')
+            and b['impl'].get('self') in ('decode::adsb::ME', 'decode::commb::DF20DataSelector', 'decode::commb::DF21DataSelector')]
+    fbits = util.variant_field_bits(prog, 'decode::DF', skip)
+    rep.floor('DF variants with field bit positions', len(fbits), 9)
     site_of = {}
     for name, bl in S.impls.items():
         site_of[name] = '%s:%s' % (bl[0]['file'], bl[0]['line'])
@@ -97,6 +101,14 @@ def run(prog, rep, tier):
                     fty, names = shapes.resolve_path(prog, rt['id'], k['src'])
                 tname = prog.types[fty]['name'] if fty is not None and prog.types[fty]['k'] == 'adt' else None
                 want_t = 'decode::IcaoParity' if any(i in AP_DF for i in ids) else 'decode::ICAO'
+                if ok and tname == want_t == 'decode::ICAO':
+                    # the announced address: 24 bits at bit 8 of the frame
+                    di = next(i for i, (var, fi) in enumerate(k['src']) if var == vi)
+                    fpath = tuple(fi for var, fi in k['src'][di:])
+                    got = sorted(v for kk, v in fbits.get(vi, {}).items() if tuple(x for x in kk if not isinstance(x, tuple))[:len(fpath)] == fpath)
+                    rep.check(got == [(8, 24)], 'R-key', '%s#icao24-bit8#%s' % (root, dv), site_of.get('decode::DF', site),
+                              'icao24 of %s is read from bits %s of the frame; the announced address is 24 bits at bit 8' % (dv, got),
+                              sample={'variant': dv, 'icao24_bits': got} if root == 'Message' else None)
                 rep.check(ok and tname == want_t, 'R-key', '%s#icao24#%s' % (root, label), site_of.get('decode::DF', site),
                           'icao24 of %s comes from %s (type %s); expected a %s field' % (label, '.'.join(names) or 'nothing', tname, want_t),
                           sample={'variant': dv, 'icao24_from': '.'.join(names), 'type': tname} if root == 'Message' and len(rep.samples) < 10 else None)
